@@ -29,7 +29,7 @@ func init() {
 			"more than three providers / more than two per-call order deviations are not covered",
 		},
 		Parts: []Part{
-			{Name: "resolve-orders", Run: func(c *core.Ctx) { resolveRun(c, "C10") }, QuickS: 180, ThoroughS: 1200},
+			{Name: "resolve-orders", Run: func(c *core.Ctx) { resolveRun(c, "C10") }, QuickS: 420, ThoroughS: 1200},
 			{Name: "self-candidate", Run: c10Self, QuickS: 40, ThoroughS: 300},
 			{Name: "typed-cycle-orders", Run: c10Typed, QuickS: 60, ThoroughS: 600},
 			{Name: "graph-orders", Run: c10Graphs, QuickS: 60, ThoroughS: 900},
